@@ -207,6 +207,10 @@ def coq_build(generators=(), timeout=3000):
                 f = m.group(1)[:-1]
                 if f not in res["failed"]:
                     res["failed"].append(f)
+        try:      # snapshot of coqdep's output while we hold the lock (another check may regenerate it later)
+            res["deps_text"] = open(os.path.join(COQ, ".Makefile.d")).read()
+        except OSError:
+            res["deps_text"] = ""
         # extraction: only the models that compiled (a model broken by the tree under check must not take the
         # drivers of the other properties with it)
         sys.path.insert(0, os.path.join(VERIF, "tools"))
@@ -215,7 +219,7 @@ def coq_build(generators=(), timeout=3000):
         good = []
         for m, n in exts:
             vf = m.replace(".", "/") + ".v"
-            clo = dep_closure(vf) or set()
+            clo = dep_closure(vf, res["deps_text"]) or set()
             vo = os.path.join(COQ, vf + "o")
             if os.path.exists(vo) and vf not in res["failed"] and not any(f in clo for f in res["failed"]) \
                     and os.path.getmtime(vo) >= os.path.getmtime(os.path.join(COQ, vf)):
@@ -265,14 +269,18 @@ def coq_build(generators=(), timeout=3000):
     return res
 
 
-def dep_closure(target):
+def dep_closure(target, text=None):
     """Transitive .v dependencies (paths relative to coq/) of a target such as 'props/C10.v',
-    read from coqdep's output (coq/.Makefile.d)."""
+    read from coqdep's output (coq/.Makefile.d, or the snapshot `text` taken under the build lock)."""
     deps = {}
-    try:
-        text = open(os.path.join(COQ, ".Makefile.d")).read().replace("\\\n", " ")
-    except FileNotFoundError:
+    if text is None:
+        try:
+            text = open(os.path.join(COQ, ".Makefile.d")).read()
+        except FileNotFoundError:
+            return None
+    if not text.strip():
         return None
+    text = text.replace("\\\n", " ")
     for line in text.split("\n"):
         if ":" not in line:
             continue
@@ -307,6 +315,8 @@ def check_props_file(pid, timeout=900):
         info["log"] = "props file contains forbidden constructs: %s" % sorted(set(bad))
         return info
     tmp = tempfile.mkdtemp(prefix="aqpr-")
+    lock = open(os.path.join(COQ, ".build.lock"), "w")
+    fcntl.flock(lock, fcntl.LOCK_EX)      # no other check may rewrite the .vo files this compile reads
     try:
         cmd = ["coqc", "-Q", COQ, "AQ", "-o", os.path.join(tmp, pid + ".vo"), src]
         info["cmd"] = " ".join(cmd)
@@ -321,6 +331,8 @@ def check_props_file(pid, timeout=900):
             info["assumptions"][name] = re.sub(r"\s+", " ", b)[:600]
         info["raw_assumptions"] = out[-4000:]
     finally:
+        fcntl.flock(lock, fcntl.LOCK_UN)
+        lock.close()
         shutil.rmtree(tmp, ignore_errors=True)
     return info
 
@@ -480,7 +492,7 @@ class Ctx:
         bad = []
         if self.build.get("fatal"):
             bad.append(self.build["fatal"])
-        clo = dep_closure("props/%s.v" % self.pid)
+        clo = dep_closure("props/%s.v" % self.pid, self.build.get("deps_text"))
         mine = getattr(self, "generators", None)
         for ge in self.build.get("gen_errors", []):
             # a failed translator counts when it declared no outputs (unknown reach), when one of its
